@@ -44,6 +44,11 @@ def node(sieve=True, max_leaves=6):
                                         st.tuples(st.integers(-3, 3), st.integers(2, 5)).map(lambda t: {"q": [t[0], t[1]]})))
                 .map(lambda t: {"f": "pow", "x": [t[0], t[1]]}),
                 st.tuples(st.sampled_from(f1), ch).map(lambda t: {"f": t[0], "x": [t[1]]}),
+                # c*(s*u) + v: removing v (subs v -> 0, sub) leaves a one-term sum, the Add::from_dict ->
+                # Mul::from_dict path that may reuse ("steal") a dictionary in non-thread-safe builds
+                st.tuples(st.integers(2, 7), st.sampled_from(SYMS), ch, st.sampled_from(SYMS)).map(
+                    lambda t: {"f": "add", "x": [{"f": "mul", "x": [{"i": t[0]}, {"f": "mul", "x": [{"s": t[1]}, t[2]]}]},
+                                                 {"s": t[3]}]}),
                 st.tuples(st.sampled_from(["f", "g"]), ch, ch).map(lambda t: {"fs": t[0], "x": [t[1], t[2]]})]
         if sieve:
             # "substitute into a shared expression" reaches the process-global prime sieve through these
@@ -107,7 +112,7 @@ _idx = st.integers(0, 40)
 
 
 def instr(sieve=True):
-    vals = [st.integers(-3, 12).map(lambda v: {"i": v}), st.sampled_from([101, 1000, 7919, 30]).map(lambda v: {"i": v}),
+    vals = [st.integers(-3, 12).map(lambda v: {"i": v}), st.just({"i": 0}), st.sampled_from([101, 1000, 7919, 30]).map(lambda v: {"i": v}),
             st.tuples(st.integers(-5, 5), st.integers(2, 7)).map(lambda t: {"q": [t[0], t[1]]}),
             _idx.map(lambda k: {"reg": k}), st.sampled_from(SYMS).map(lambda s: {"s": s})]
     val = st.one_of(vals)
